@@ -10,13 +10,21 @@ lists) is printed with the TXT strings, the packet size verdict and the info the
 expects back; this module turns the abstract strings into concrete ones run by run
 (homomorphically, seeded) and `vh_lookup c31` executes them on the public API
 `EndpointInfo::{to_pkarr_signed_packet, from_pkarr_signed_packet, to_txt_strings,
-from_txt_lookup}` (packet path also re-read through `SignedPacket::from_bytes`).
+from_txt_lookup}` (packet path also re-read through `SignedPacket::from_bytes`), and on the
+production DNS path: signed packet -> `SignedPacket::from_bytes` -> the packet's DNS message
+decoded with hickory (as iroh-dns-server does) -> every TXT answer wrapped in
+`dns::TxtRecordData` (as `HickoryResolver::lookup_txt` does) -> `from_txt_lookup`.  The spec
+makes the character-string structure of a TXT record explicit (`wire`); the required design
+writes each attribute string as ONE character-string, a publisher cutting at 254 bytes is
+refuted on RoundTrip (a 2-byte character straddling the cut is lost on the DNS path).
 
-Decision: a resolved info whose endpoint id, address *set* or user data differs from what the
-spec yields, a failing resolve of something that was published, or a panic, is a violation.
+Decision: whenever the code published something (whether or not the size model agrees that it
+fits), a resolved info whose endpoint id, address *set* or user data differs from the
+published info, a failing resolve, or a panic, is a violation — on any of the three paths.
 Differences in things the property does not fix (TXT string spelling, address order, packet
-length, which oversized infos are refused, parser verdicts on foreign strings) mean the spec
-no longer describes the code: tool error (NONCONFORMANCE), never a violation.
+length, character-string layout, which oversized infos are refused, parser verdicts on
+foreign strings) are collected and reported as NONCONFORMANCE (exit 2) only if every round
+trip of the run was the identity.
 
 Genuine defect found by this check on the pinned tree: values containing "=" come back
 truncated (`user-data=a=b=c` -> `a`; relay URL `https://h./?k=v` -> `https://h./?k`),
@@ -25,6 +33,8 @@ known finding C31_value_truncated_at_eq, proposed fix proposed_fixes/C31.diff (s
 Mutation self-test (2026-09-22): in `endpoint_info_from_attrs` the relay attribute was parsed
 with a stricter rule (`.filter(|u: &Url| u.query().is_none())`, DESIGN §12 C31) -> VIOLATION
 (sig field=addrs wrong=missing for the query-string relay URLs), undone -> exit 0.
+Seeded changes (2026-09-22): seeded/_incoming/C31/patch.diff (split('=') through a helper) and
+patch2.diff (TXT::try_from: 254-byte character-strings) -> VIOLATION (see seeded/lookup/README).
 """
 import json
 import random
@@ -163,7 +173,12 @@ def concretise(ctx, idx, b):
         exp_ud = None
     case = {"case": idx, "via": b["via"], "secret": secret, "addrs": addrs, "ud": ud, "filter": b.get("filter", "none"),
             "txt": txt if b["via"] == "foreign" else []}
-    exp = {"st": out["st"], "why": out["why"], "addrs": exp_addrs, "ud": exp_ud, "txt": txt, "pktlen": b["pktlen"]}
+    info = b.get("info") or {"addrs": out["addrs"], "ud": out["ud"]}
+    exp = {"st": out["st"], "why": out["why"], "addrs": exp_addrs, "ud": exp_ud, "txt": txt, "pktlen": b["pktlen"],
+           # the published info: what the property says must come back through every path
+           "info_addrs": [addr(a) for a in info["addrs"]] if b["via"] != "foreign" else [],
+           "info_ud": ud if (info["ud"]["some"] and b["via"] != "foreign") else None,
+           "cs": b.get("cs", [])}
     return case, exp
 
 
@@ -186,8 +201,9 @@ def judge(ctx, b, case, exp, o):
     inp = "value_with_eq" if has_eq(b) else "no_eq"
 
     def drift(what):
-        raise ToolError("NONCONFORMANCE (not a property violation) in case %d (%s): %s\n  case: %s\n  observed: %s"
-                        % (case["case"], b["via"], what, json.dumps(case)[:600], json.dumps(o)[:600]))
+        # non-conformance is decided at the end of the run: it stands only if no round trip was broken
+        ctx.drifts.append("NONCONFORMANCE (not a property violation) in case %d (%s): %s\n  case: %s\n  observed: %s"
+                          % (case["case"], b["via"], what, json.dumps(case)[:600], json.dumps(o)[:600]))
 
     if o["new"] == "panic":
         ctx.report({"input": inp, "field": "panic", "wrong": "panic", "via": b["via"]},
@@ -201,62 +217,75 @@ def judge(ctx, b, case, exp, o):
         return
     if o["new"] != "ok":
         drift("model: constructors succeed; code: %s" % o["new"])
+        return
     if b["via"] == "foreign":
         want = "ok" if exp["st"] == "ok" else exp["why"]
         if o["st"] != want:
             drift("foreign TXT list: model verdict %s, code %s" % (want, o["st"]))
-        if want == "ok" and (o["addrs"] != exp["addrs"] or o["ud"] != exp["ud"]):
+        elif want == "ok" and (o["addrs"] != exp["addrs"] or o["ud"] != exp["ud"]):
             drift("foreign TXT list: model yields %s / %r, code %s / %r" % (exp["addrs"], exp["ud"], o["addrs"], o["ud"]))
         return
+    # ---- the property first: whatever the code managed to publish must come back unchanged, through every
+    # path, whether or not the size model agrees that it could be published
+    resolved = o["st"] != "n/a"
+    if resolved:
+        sig = {"input": inp, "via": b["via"]}
+        if o["st"] != "ok":
+            ctx.report(dict(sig, field="status", wrong=o["st"]),
+                       "resolving a published info failed with %s %s" % (o["st"], o.get("detail", "")), replay)
+            return
+        if not o["id_ok"]:
+            ctx.report(dict(sig, field="id", wrong="other"), "resolved endpoint id differs from the publisher's", replay)
+            return
+        if not o["bytes_same"]:
+            ctx.report(dict(sig, field="bytes", wrong="other"),
+                       "the packet re-read from its bytes resolves differently from the packet itself", replay)
+            return
+        es = {(a["kind"], a["s"]) for a in exp["info_addrs"]}
+        got = {(a["kind"], a["s"]) for a in o["addrs"]}
+        if es != got:
+            missing, extra = es - got, got - es
+            if extra and {(k, trunc(s)) for k, s in missing} == extra:
+                wrong = "truncated_at_eq"
+            elif not extra:
+                wrong = "missing"
+            else:
+                wrong = "other"
+            ctx.report(dict(sig, field="addrs", wrong=wrong),
+                       "address set changed: lost %s, gained %s" % (sorted(missing), sorted(extra)), replay)
+            return
+        if o["ud"] != exp["info_ud"]:
+            if o["ud"] is None:
+                wrong = "missing"
+            elif exp["info_ud"] is not None and o["ud"] == trunc(exp["info_ud"]):
+                wrong = "truncated_at_eq"
+            else:
+                wrong = "other"
+            ctx.report(dict(sig, field="user_data", wrong=wrong),
+                       "user data %r (%d bytes) came back as %r" % (exp["info_ud"], len(exp["info_ud"].encode()) if exp["info_ud"] else 0,
+                                                                     o["ud"]), replay)
+            return
+    # ---- conformance of what the property does not fix (reported only if every round trip of the run is intact)
     if sorted(o["txt"]) != sorted(exp["txt"]):
         drift("TXT strings differ: model %s, code %s" % (exp["txt"], o["txt"]))
-    if b["via"] == "packet":
+        return
+    if b["via"] in ("packet", "dns"):
         want = "ok" if exp["st"] != "unencodable" else exp["why"]
         if o["encode"] != want:
             drift("packet encoding verdict: model %s, code %s (model length %d, code %d)"
                   % (want, o["encode"], exp["pktlen"], o["pktlen"]))
+            return
         if want != "DnsError" and o["pktlen"] != exp["pktlen"]:
             drift("DNS packet length: model %d, code %d" % (exp["pktlen"], o["pktlen"]))
+            return
         if want != "ok":
             return
-    # ---- the property: what was published comes back
-    sig = {"input": inp, "via": b["via"]}
-    if o["st"] != "ok":
-        ctx.report(dict(sig, field="status", wrong=o["st"]),
-                   "resolving a published info failed with %s" % o["st"], replay)
-        return
-    if not o["id_ok"]:
-        ctx.report(dict(sig, field="id", wrong="other"), "resolved endpoint id differs from the publisher's", replay)
-        return
-    if not o["bytes_same"]:
-        ctx.report(dict(sig, field="bytes", wrong="other"),
-                   "the packet re-read from its bytes resolves differently from the packet itself", replay)
-        return
-    es = {(a["kind"], a["s"]) for a in exp["addrs"]}
-    got = {(a["kind"], a["s"]) for a in o["addrs"]}
-    if es != got:
-        missing, extra = es - got, got - es
-        if extra and {(k, trunc(s)) for k, s in missing} == extra:
-            wrong = "truncated_at_eq"
-        elif not extra:
-            wrong = "missing"
-        else:
-            wrong = "other"
-        ctx.report(dict(sig, field="addrs", wrong=wrong),
-                   "address set changed: lost %s, gained %s" % (sorted(missing), sorted(extra)), replay)
-        return
-    if o["ud"] != exp["ud"]:
-        if o["ud"] is None:
-            wrong = "missing"
-        elif exp["ud"] is not None and o["ud"] == trunc(exp["ud"]) and o["ud"] != exp["ud"]:
-            wrong = "truncated_at_eq"
-        else:
-            wrong = "other"
-        ctx.report(dict(sig, field="user_data", wrong=wrong),
-                   "user data %r came back as %r" % (exp["ud"], o["ud"]), replay)
-        return
+        if b["via"] == "dns" and o["cs_lens"] != exp["cs"]:
+            drift("character-strings per TXT record: model %s, code %s" % (exp["cs"], o["cs_lens"]))
+            return
     if o["addrs"] != exp["addrs"]:
         drift("address order: model %s, code %s" % (exp["addrs"], o["addrs"]))
+        return
     if len(b["addrs"]) >= 2 and b["ud"]["some"] and len(ctx.cov["samples"]) < 4 and (case["case"] % 7 == 0):
         ctx.sample({"via": b["via"], "addrs": case["addrs"], "user_data": case["ud"], "txt": o["txt"],
                     "packet_len": o["pktlen"], "resolved_addrs": o["addrs"], "resolved_user_data": o["ud"]})
@@ -270,8 +299,16 @@ def execute(ctx, behaviours, name):
     obs = ctx.read_ndjson(outp)
     if len(obs) != len(pairs):
         raise ToolError("harness returned %d observations for %d cases" % (len(obs), len(pairs)))
+    ctx.drifts = []
     for b, (case, exp), o in zip(behaviours, pairs, obs):
         judge(ctx, b, case, exp, o)
+    # a broken round trip is a violation even if the size model disagrees too; non-conformance stands only
+    # when every round trip of the run was the identity
+    if ctx.drifts and not ctx.violations and not ctx.known_hits:
+        raise ToolError("%s\n(%d non-conforming cases in total)" % (ctx.drifts[0], len(ctx.drifts)))
+    if ctx.drifts:
+        ctx.log("note: %d cases also differ from the model in things the property does not fix, e.g. %s"
+                % (len(ctx.drifts), ctx.drifts[0].split("\n")[0]))
     return pairs, obs
 
 
@@ -283,11 +320,14 @@ def run(ctx):
     # 1. the as-written split is refuted by the model (anti-vacuity of RoundTrip)
     ctx.tlc("dns", "MC_EndpointInfo", cfg="EndpointInfo_aswritten.cfg", mode="mc", workers=2, coverage=False,
             constants={"MaxRuns": 2, "SplitOnce": "FALSE"}, expect_violation="RoundTrip", timeout=900)
+    #    ... and so is a publisher that cuts attribute strings into 254-byte character-strings (DNS path)
+    ctx.tlc("dns", "MC_EndpointInfo", cfg="EndpointInfo_chunk254.cfg", mode="mc", workers=2, coverage=False,
+            constants={"MaxRuns": 2, "SplitOnce": "TRUE"}, expect_violation="RoundTrip", timeout=900)
     # 2. the required design holds; every finished behaviour is printed
     cfg = ctx.pick("EndpointInfo.cfg", "EndpointInfo_thorough.cfg")
     res = ctx.tlc("dns", "MC_EndpointInfo", cfg=cfg, mode="gen", timeout=2400,
                   constants={"MaxRuns": 3, "SplitOnce": "TRUE"},
-                  require_actions=["New", "PublishPacket", "PublishTxt", "Resolve", "ResolveForeign"])
+                  require_actions=["New", "Encode", "PublishTxt", "Resolve", "ResolveForeign"])
     behaviours = res.replays
     if not behaviours:
         raise ToolError("TLC printed no behaviours")
@@ -307,16 +347,17 @@ def selftest(ctx, behaviours, pairs, obs):
     import io
     n = 0
     for b, (case, exp), o in zip(behaviours, pairs, obs):
-        if not (b["via"] in ("txt", "packet") and b["out"]["st"] == "ok" and b["ud"]["some"] and b["ud"]["s"]
+        if not (b["via"] in ("txt", "packet", "dns") and b["out"]["st"] == "ok" and b["ud"]["some"] and b["ud"]["s"]
                 and b["out"]["addrs"] and not has_eq(b)):
             continue
         for variant in ("ud", "addr", "status"):
             sub = type(ctx)(ctx.prop, ctx.tier, ctx.seed)
             sub.scratch, sub.quiet, sub.findings = ctx.scratch, True, []
             sub.replay = ctx.path("selftest-replay.json")   # report() then writes no replay file
+            sub.drifts = []
             e2, o2 = copy.deepcopy(exp), copy.deepcopy(o)
             if variant == "ud":
-                e2["ud"] = e2["ud"] + "x"                   # flipped expectation
+                e2["info_ud"] = e2["info_ud"] + "x"         # flipped expectation
             elif variant == "addr":
                 o2["addrs"] = o2["addrs"][1:]               # an address lost on the way
             else:
